@@ -946,7 +946,7 @@ fn backpressure_force_close_tcp(ctx: &mut Ctx) {
             let _ = st.x.cmd.send(MonitorCmd::Pause);
             settle(&mut w).await;
             // fill X's channel: dial failures (connection refused on loopback port 1), one notification each
-            let capacity = 4096usize;
+            let capacity = litep2p::verif::DEFAULT_CHANNEL_SIZE;
             let count_y = |st: &St| st.y.log.lock().iter().filter(|e| matches!(e, Seen::DialFailure { .. })).count();
             let mut sent = 0usize;
             while count_y(&st) < capacity && sent < 3 * capacity {
@@ -1012,7 +1012,7 @@ fn backpressure_force_close_tcp(ctx: &mut Ctx) {
     }
 }
 
-/// C07, "protocols before the manager": fill protocol X's event channel to capacity (4096 dial-failure notifications
+/// C07, "protocols before the manager": fill protocol X's event channel to capacity (DEFAULT_CHANNEL_SIZE = 4096 dial-failure notifications
 /// while X does not poll), then end the connection. `ProtocolSet::report_connection_closed` must not tell the manager
 /// before X's notification has been enqueued, i.e. while X is blocked the application must not see ConnectionClosed and
 /// the peer still counts as connected; once X drains, everybody is told.
@@ -1032,8 +1032,8 @@ fn backpressure_order_check(ctx: &mut Ctx) {
         }
         let _ = st.x.cmd.send(MonitorCmd::Pause);
         w.run_to_quiescence(100_000);
-        // 4096 dial failures: each is one DialFailure notification to every protocol
-        let capacity = 4096usize;
+        // one dial failure per slot: each is one DialFailure notification to every protocol
+        let capacity = litep2p::verif::DEFAULT_CHANNEL_SIZE;
         for i in 0..capacity {
             let p = crate::util::peer(900_000 + i as u64);
             let a: multiaddr::Multiaddr = format!("/ip4/10.200.{}.{}/tcp/1", i / 250, i % 250 + 1).parse().unwrap();
